@@ -5,7 +5,8 @@ import itertools
 import re
 from typing import Any, Iterator
 
-from ..explore import charspace, corpus
+from ..explore import charspace, corpus, pylib
+from . import _lib
 from ..oracle import astcmp, cpy_tok, run
 
 ID = "C10"
@@ -17,12 +18,12 @@ RULE = (
     "a = , a:>3, a:{w}, a:{w}.{p}, a!r:^{w}, nested f-string, multi-line field, lambda / dict in parentheses} up to the "
     "part bound; f-strings nested two and three deep in every combination of the four quote styles with 12 conversion / "
     "format-spec forms (specs holding the other styles' quote characters) at every level; adjacency with plain strings, other f-strings and a following '{'; every f-string statement of the "
-    "corpus. Domain: ast.parse accepts. Oracle: FSTRING_START/MIDDLE/END and expression tokens equal CPython's "
+    "corpus; every field form that holds a line end once more with CRLF line ends; every module of the interpreter's own standard library that holds an f-string, as a whole file (tree only). Domain: ast.parse accepts. Oracle: FSTRING_START/MIDDLE/END and expression tokens equal CPython's "
     "tokenize, and the JoinedStr / FormattedValue / Constant tree (values and spans) equals ast.parse. Non-trivial = "
     "accepted by CPython and containing at least one replacement field or escape (distinct texts)."
 )
-BOUND = {"quick": "bodies^<=5 in f\"..\", ^<=4 in the other three carriers; structured product up to 2 parts; nesting depth 2 (with literal parts) and 3; adjacency; corpus",
-         "thorough": "bodies^<=6 in f\"..\", ^<=5 in the others; structured product up to 3 parts; nesting depth 2 (with literal parts) and 3; adjacency; corpus"}
+BOUND = {"quick": "bodies^<=5 in f\"..\", ^<=4 in the other three carriers; structured product up to 2 parts; nesting depth 2 (with literal parts) and 3; adjacency; corpus; CRLF forms; " + pylib.describe("quick"),
+         "thorough": "bodies^<=6 in f\"..\", ^<=5 in the others; structured product up to 3 parts; nesting depth 2 (with literal parts) and 3; adjacency; corpus; CRLF forms; " + pylib.describe("thorough")}
 ASSUMPTIONS = ["CPython 3.12.1 tokenize / ast.parse are the reference (incl. its habit of ending a format spec that holds a nested field with an empty Constant)"]
 
 PREFIXES = ["f", "F", "rf", "fr", "Rf", "fR", "rF", "Fr", "RF", "FR", "fR", "Rf"]
@@ -36,6 +37,8 @@ FIELDS = [
     "{a:>\n3}", "{a:x\ny}", "{a:{w}\n}", "{a:\n{w}}", "{a:>\\\n3}", "{a!r:>\n}",
     # a debug field that goes on over the end of the line
     "{a=\n}", "{a = \n!r}", "{a=\n:>3}", "{a\n=}", "{a=!r\n}", "{a # c\n=}", "{'#' + a=}",
+    # comments after the '=' of a debug field, on several lines, before a conversion / format spec
+    "{a= # c\n}", "{a = # c\n  !r}", "{a=#c\n:>3}", "{a # c\n = # d\n}", "{a = # c\n\n  # d\n\n}", "{a =\t# c\n\t}", "{a + # c\n b = }",
     # fields nested in format specs two, three and four levels deep (CPython: two are fine, then 'nested too deeply')
     # a debug field with a format spec that holds an escape, a nested field, a line continuation
     "{a=:\\t>4}", "{a=!r:\\x41^{w}}", "{a=:\\\n>3}", "{a = :{w}\\N{DIGIT ONE}}",
@@ -56,6 +59,8 @@ def units(tier: str) -> list[tuple]:
         us.append(("prod", i, 2 if q else 3))
     us.append(("adj",))
     us.append(("corpus",))
+    us.append(("crlf",))
+    us += pylib.units(tier, "fstr")
     for i in range(len(QUOTES)):
         us.append(("nest", i, 2))
         us.append(("nest", i, 3))
@@ -146,6 +151,15 @@ def cases(unit: tuple) -> Iterator[str]:
                 yield s if s.endswith("\n") else s + "\n"
     elif k == "nest":
         yield from _nest(unit[1], unit[2])
+    elif k == "crlf":
+        # every field form that holds a line end, written with CRLF line ends (the whole text, as in a CRLF file)
+        # (trees only: CPython's tokenize module, unlike its compiler, does not translate line ends first and reports the
+        # '\r' as text of a format spec; the tokens are compared on the LF forms)
+        for t in light_cases():
+            if "\n" in t[:-1]:
+                yield {"src": t.replace("\n", "\r\n"), "tree_only": True}
+    elif k == "pylib":
+        yield from pylib.expand(unit)
     elif k == "corpus":
         for s in corpus.python_stmts():
             if run.has_fstring(s):
@@ -166,6 +180,9 @@ _MSG = re.compile(r"'[^']*'|\"[^\"]*\"|\d+")
 
 
 def check_case(case: Any, acc: Any) -> None:
+    if isinstance(case, dict) and "pylib" in case:
+        _lib.check_file(case, acc, fstrings=True)
+        return
     src = case["src"] if isinstance(case, dict) else case
     if not run.python_lexicon(src.replace("!r", "").replace("!s", "").replace("!a", "").replace("!x", "").replace("!", "")) and "$" in src:
         acc.count("outside:xonsh-lexeme")
@@ -177,7 +194,7 @@ def check_case(case: Any, acc: Any) -> None:
     if _INTERESTING.search(src):
         acc.nontrivial(src)
     # ---- tokens
-    r = cpy_tok.compare(src, allow_fstrings=True)
+    r = None if isinstance(case, dict) and case.get("tree_only") else cpy_tok.compare(src, allow_fstrings=True)
     acc.ran()
     if r is not None and r[0] == "diff":
         acc.count("TOKENS-DIFF")
